@@ -73,6 +73,11 @@ pub struct Case {
   /// is idle again well before the next tick falls due
   #[serde(default)]
   busy_100us: u32,
+  /// k > 0: only the k-th callback is slow, and it may then take longer than
+  /// one or several periods; only the lower bound between consecutive ticks
+  /// is judged in such a run (the executor is not idle when ticks fall due)
+  #[serde(default)]
+  busy_only_at: u8,
 }
 
 #[derive(Default)]
@@ -227,11 +232,17 @@ impl Scenario for C08 {
       });
     }
     let prompt = rng.chance(1, 2);
+    let mut busy_only_at = 0u8;
     let busy_100us = match &src {
+      Src::Interval { p, take } | Src::IntervalAt { p, take, .. } if prompt && *p > 0 && rng.chance(1, 12) => {
+        // one slow delivery, up to a few periods long
+        busy_only_at = rng.range(1, *take) as u8;
+        *p * *rng.pick(&[5u32, 10, 15, 23, 40])
+      }
       Src::Interval { p, .. } | Src::IntervalAt { p, .. } if prompt && *p > 0 && rng.chance(1, 6) => (*rng.pick(&[1u32, 5, 20, 2000])).min(*p * 10 - 1),
       _ => 0,
     };
-    serde_json::to_value(Case { src, shared_sched: rng.chance(1, 2), sub_after: *rng.pick(&[0u32, 0, 0, 2]), prompt, acts, late_start: rng.chance(1, 3), busy_100us }).unwrap()
+    serde_json::to_value(Case { src, shared_sched: rng.chance(1, 2), sub_after: *rng.pick(&[0u32, 0, 0, 2]), prompt, acts, late_start: rng.chance(1, 3), busy_100us, busy_only_at }).unwrap()
   }
 
   fn run(&self, case: &Value) -> Result<Outcome, String> {
@@ -243,7 +254,7 @@ impl Scenario for C08 {
       _ => {}
     }
     if case.busy_100us > 0 {
-      let ok = case.prompt && matches!(&case.src, Src::Interval { p, .. } | Src::IntervalAt { p, .. } if case.busy_100us < *p * 10);
+      let ok = case.prompt && matches!(&case.src, Src::Interval { p, .. } | Src::IntervalAt { p, .. } if (case.busy_only_at > 0 && case.busy_100us <= *p * 100) || case.busy_100us < *p * 10);
       if !ok {
         return Err("a busy subscriber is only judged for interval sources on the prompt executor, and for less than a period".into());
       }
@@ -251,6 +262,7 @@ impl Scenario for C08 {
     let w = World::new();
     let log = ProbeLog::new(false);
     log.busy_ns.store(case.busy_100us as u64 * MS / 10, SeqCst);
+    log.busy_only_at.store(case.busy_only_at as usize, SeqCst);
     let p = Probe(log.clone());
     let gates: Gates = Arc::new(Mutex::new(GateState::default()));
     let mk_stream = |g: Vec<Gate>, err_at: Option<usize>| ScriptStream { gates: g, pos: 0, selfwake_left: None, ext_seen: 0, err_at, st: gates.clone() };
@@ -413,7 +425,7 @@ impl Scenario for C08 {
     // ---- oracle
     let recs = log.records();
     let evs: Vec<Ev> = recs.iter().map(|r| r.ev.clone()).collect();
-    let site = format!("{}{}", format!("{:?}", case.src).split(|c: char| !c.is_alphanumeric()).next().unwrap(), if case.busy_100us > 0 { " busy-subscriber" } else { "" });
+    let site = format!("{}{}", format!("{:?}", case.src).split(|c: char| !c.is_alphanumeric()).next().unwrap(), if case.busy_only_at > 0 { " one-slow-delivery" } else if case.busy_100us > 0 { " busy-subscriber" } else { "" });
     let mut violation: Option<Violation> = None;
     let mut bad = |rule: &str, detail: String| {
       if violation.is_none() {
@@ -451,7 +463,7 @@ impl Scenario for C08 {
           if *t < min {
             bad("c08.early", format!("tick {} at {}ms, not before {}ms allowed (sub at {}ms, period {}ms)", k, *t as f64 / 1e6, min as f64 / 1e6, t_sub / MS, p));
           }
-          if case.prompt {
+          if case.prompt && case.busy_only_at == 0 {
             let exact = if k == 0 { exact_first } else { Some(times[k - 1] + per) };
             if let Some(x) = exact {
               if *t != x {
